@@ -235,8 +235,22 @@ fn report_failure(st: &mut St, history: &[Op], inj: Inject) {
             }
         }
     };
+    if let Some(v) = st.v.by_key.get_mut(&key) {
+        v.count += 1;
+        if v.replay["history"].as_array().is_some_and(|h| h.len() <= history.len()) {
+            return;
+        }
+    }
     let names: Vec<String> = history.iter().map(|o| o.name()).collect();
-    st.v.add(key, format!("{what} [history: create, {}; time source: {}]", names.join(", "), inj.name()), json!({"part": "timer", "injection": inj.name(), "history": names, "trace": trace(history, inj)}));
+    let what = format!("{what} [history: create, {}; time source: {}]", names.join(", "), inj.name());
+    let replay = json!({"part": "timer", "injection": inj.name(), "history": names, "trace": trace(history, inj)});
+    match st.v.by_key.get_mut(&key) {
+        Some(v) => {
+            v.what = what;
+            v.replay = replay;
+        }
+        None => st.v.add(key, what, replay),
+    }
 }
 
 fn check(st: &mut St, history: &[Op], inj: Inject, real: &mut Vec<(usize, Rec)>, exp: &mut Vec<(usize, Rec)>) {
